@@ -390,6 +390,22 @@ func c09RaceForge(m *memRig, op harness.Op, kinds map[string]int) {
 		applied = true
 		m.r.out.Probes["race_forgery_primed_before_the_removal_arrived"]++
 	}
+	if !applied {
+		// the removal did not get through: the node would judge the queued snapshot by the membership it
+		// knows, which is not what this scenario is about; a restart empties its pools
+		c.Crash(victim, false)
+		m.r.fault("crash.step_boundary", c.Q.Now)
+		if err := c.Restart(victim); err != nil {
+			c.Violate("C22", "restart-failed", err.Error(), victim)
+			return
+		}
+		victim.PollOnly = nil
+		m.inj.deliver(c.External(), victim, rem.tx, rem.snap, time.Millisecond)
+		c.Run(c.Q.Now + 3*time.Second)
+		probe("removal-late-at-victim")
+		m.purge = false
+		return
+	}
 	// ... and only now the chain loop looks at the queued snapshot
 	victim.PollOnly = nil
 	c.Run(c.Q.Now + 3*time.Second)
